@@ -495,7 +495,7 @@ def idle_base(rng: random.Random, i: int) -> dict:
 def idle_derive(sc: dict, t: float, rng: random.Random):
     nb = len(sc['buses'])
     b = rng.choice([1, 1, rng.randrange(nb)])
-    sc['actors'] = sc['actors'] + [[['sleep', t], ['idle', b, None]]]
+    sc['actors'] = sc['actors'] + [[['sleep', t], ['idle', b, rng.choice([None, None, 0.5, 2.0])]]]
     yield sc
 
 
@@ -531,7 +531,10 @@ def shapes_scenario(rng: random.Random, i: int) -> dict:
         elif x < 0.7 and not any(op[0] == 'disp' for op in src['prog']):
             hs.append({'bus': src['bus'], 'pat': '*', 'kind': src['kind'], 'prog': [], 'same_as': j})  # also as wildcard (never dispatches)
         elif nb > 1:
-            hs.append({'bus': rng.choice([b for b in range(nb) if b != src['bus']]), 'pat': src['pat'], 'kind': src['kind'], 'prog': [], 'same_as': j})  # same function on another bus
+            ob = rng.choice([b for b in range(nb) if b != src['bus']])
+            hs.append({'bus': ob, 'pat': src['pat'], 'kind': src['kind'], 'prog': [], 'same_as': j})  # same function on another bus
+            if rng.random() < 0.6 and not any(f[0] == src['bus'] and f[1] == ob for f in sc['fwd']):
+                sc['fwd'].append([src['bus'], ob, '*' if rng.random() < 0.6 else (src['pat'] if isinstance(src['pat'], int) else '*')])  # ... which also receives the event by forwarding
     # sibling handlers that await an event dispatched (and shared) by another handler of the same event
     if rng.random() < 0.6:
         b = rng.randrange(nb)
